@@ -1,4 +1,5 @@
 import FFSM2.Driver.Containers
+import FFSM2.Driver.MachineIO
 open FFSM2.Driver
 
 /-- generic stdin loop: one output line per input line; blank lines and `#` comments are skipped -/
@@ -14,6 +15,31 @@ partial def loop {σ : Type} (h : IO.FS.Stream) (out : IO.FS.Stream) (step : σ 
     out.putStrLn o
     loop h out step s'
 
+/-- machine engine: reads whole cases (`case` / `cfg` / `beh` / `op` lines), prints the model's trace -/
+partial def machineLoop (h : IO.FS.Stream) (cur : Option Case) : IO Unit := do
+  let line ← h.getLine
+  let flush (c : Option Case) : IO Unit := do
+    match c with
+    | some c => for l in runCase c do IO.println l
+    | none => pure ()
+  if line.isEmpty then
+    flush cur
+    return ()
+  let ws := words line
+  match ws with
+  | [] => machineLoop h cur
+  | "case" :: name :: _ => flush cur; machineLoop h (some { name := name })
+  | "cfg" :: rest => machineLoop h (cur.map fun c => { c with cfg := parseCfg rest })
+  | "beh" :: rest =>
+    match parseBeh rest with
+    | some e => machineLoop h (cur.map fun c => { c with beh := e :: c.beh })
+    | none => IO.println s!"bad-beh {line.trimAscii.toString}"; machineLoop h cur
+  | "op" :: rest =>
+    match parseOp rest with
+    | some o => machineLoop h (cur.map fun c => { c with ops := o :: c.ops })
+    | none => IO.println s!"bad-op {line.trimAscii.toString}"; machineLoop h cur
+  | _ => machineLoop h cur
+
 def main (args : List String) : IO UInt32 := do
   let stdin ← IO.getStdin
   let stdout ← IO.getStdout
@@ -23,6 +49,7 @@ def main (args : List String) : IO UInt32 := do
   | ["static"] => loop stdin stdout saStep {}; return 0
   | ["dynamic"] => loop stdin stdout daStep (FFSM2.Arrays.Dynamic.init 0 0); return 0
   | ["tasklist"] => loop stdin stdout tlStep {}; return 0
+  | ["machine"] => machineLoop stdin none; return 0
   | ["dispatch", n] => for l in dispatchLines (nat! n) do IO.println l
                        return 0
   | ["ancestors", k] => for l in ancestorLines (nat! k) do IO.println l
